@@ -91,6 +91,11 @@ Findings on the tree as first read (all reproduced on the real code; witnesses i
   "outside the model"; the generator writes such names at IR >= 10 (supported: ordinary unreferenced entries) and,
   in the unsupported stream, at every IR version (seeded r2m3: gate changed to `if model.functions` — first missed,
   now caught).
+  Seeded r5m3 (leading "::" of the qualified name dropped for functions in the default domain, IR < 10): first
+  missed; now the stream "experimental-function-value-info-ir<10" (functions in domains "", "ai.onnx", "pkg" whose
+  values are typed by main-graph entries "{domain}::{function}/{value}") is compared model-vs-implementation AND judged
+  by the oracle, which treats those entries as referenced value-info that must round-trip.  These protos are outside
+  wf (C02_roundtrip does not cover the IR < 10 experimental format; the model describes it and the tie checks it).
   Upstream fixes 5e4600e (nodes of nested graphs follow the model's IR-version gate: ser_graph passes irv down,
   wf_graph's allow_dev now covers nested graphs) and 3a09e57 (a repeated initializer name: only the last tensor is
   used — `last_only`, after all tensors are deserialized) landed after the proof was finished: model, wf, generator
@@ -456,6 +461,8 @@ def canon(msg, ctx=None):
         elif fd.type == fd.TYPE_MESSAGE:
             if fd.name == "shape" and not msg.HasField("shape"):
                 out[fd.name] = None
+            elif name == "ModelProto" and fd.name == "graph":
+                out[fd.name] = canon(v, _experimental_function_value_names(msg))
             else:
                 out[fd.name] = canon(v)
         else:
@@ -474,10 +481,34 @@ def canon(msg, ctx=None):
     if name == "GraphProto":
         io = {v.name for v in msg.input} | {v.name for v in msg.output}
         referenced = {o for n in msg.node for o in n.output if o} | {t.name for t in msg.initializer}
+        referenced |= ctx or set()
         out["value_info"] = _canon_vinfos(msg.value_info, io, referenced, msg.initializer)
     if name == "FunctionProto":
         referenced = {o for n in msg.node for o in n.output if o} | set(msg.input)
         out["value_info"] = _canon_vinfos(msg.value_info, set(), referenced, [])
+    return out
+
+
+def _experimental_function_value_names(m) -> set:
+    """Below the IR version that has FunctionProto.value_info, a main-graph value_info entry named
+    "{domain}::{function}/{value}" describes a value (input or node output) of the model-local function
+    (domain, function, overload "") — it is referenced, hence part of what must round-trip."""
+    if m.ir_version >= 10 or not len(m.functions):
+        return set()
+    vals = {}
+    for f in m.functions:
+        if not f.overload:
+            vals[(f.domain, f.name)] = set(f.input) | {o for n in f.node for o in n.output}
+    out = set()
+    for vi in m.graph.value_info:
+        parts = vi.name.split("/")
+        if len(parts) != 2:
+            continue
+        fparts = parts[0].split("::")
+        if len(fparts) != 2:
+            continue
+        if parts[1] in vals.get((fparts[0], fparts[1]), ()):
+            out.add(vi.name)
     return out
 
 
@@ -1059,6 +1090,35 @@ class Gen:
         return m
 
 
+def model_experimental_ir9(g: "Gen"):
+    """IR < 10 model whose model-local functions (default domain "", "ai.onnx", a custom one) have their values typed
+    through main-graph value_info entries named "{domain}::{function}/{value}" (the format the serializer itself
+    writes below IR 10).  Outside wf (the theorem's domain) but inside the property: judged by the oracle."""
+    import onnx
+    for _ in range(50):
+        m = g.model()
+        if m.ir_version < 10:
+            break
+    else:
+        return None
+    if not len(m.functions):
+        g.function(m.functions.add(), m.ir_version, 0, None)
+    taken = {v.name for v in m.graph.value_info} | {o for n in m.graph.node for o in n.output}
+    for i, f in enumerate(m.functions):
+        f.domain = ["", "", AI_ONNX, "pkg"][(i + g.r.randrange(4)) % 4]
+        f.name = f"Block{i}"
+        vals = list(f.input) + [o for n in f.node for o in n.output if o]
+        g.r.shuffle(vals)
+        for v in vals[: g.r.randrange(1, 4)]:
+            nm = f"{f.domain}::{f.name}/{v}"
+            if nm in taken:
+                continue
+            taken.add(nm)
+            g.vinfo(m.graph.value_info.add(), nm, typed=0.9)
+            g.h("model:experimental-function-value-info-ir<10")
+    return m
+
+
 MUTATIONS = ["dup-metadata-key", "vinfo-names-input", "unresolved-input", "checksum", "function-input-vinfo",
              "quant-passthrough", "seq-no-elem", "map-type", "tensor-no-elem", "sparse-attr", "undefined-attr",
              "devconf-old-ir", "function-vinfo-old-ir", "dup-opset", "output-not-produced", "dup-attr",
@@ -1571,6 +1631,16 @@ def gen_cases(ck, n_models: int) -> dict[str, list[dict]]:
                     c["mutation"] = f"{mk}@ir{irv}"
                     by_kind["model"].append(c)
                     ck.hist("unsupported_stream", f"{mk}@ir{irv}")
+    # IR < 10: function values typed through the experimental main-graph value_info names (oracle-judged)
+    for _ in range(max(12, n_models // 10)):
+        m2 = model_experimental_ir9(g)
+        if m2 is not None:
+            c = make_case("model", m2, False)
+            if c:
+                c["oracle_supported"] = True
+                c["mutation"] = "experimental-function-value-info-ir<10"
+                by_kind["model"].append(c)
+                ck.hist("oracle_supported_stream", "experimental-function-value-info-ir<10")
     for i in range(n_models):
         t = onnx.TensorProto()
         g.tensor(t)
@@ -1654,7 +1724,7 @@ def report_failures(ck, kind: str, bad: list[tuple[dict, int]]) -> None:
     for c, code in bad:
         p = c["proto"]
         what = DIAG.get(code, str(code))
-        if c["supported"] or code in (3, 4):
+        if c["supported"] or c.get("oracle_supported") or code in (3, 4):
             diffs = oracle_case(kind, p)
             if diffs:
                 key = classify_known(diffs)
@@ -1725,7 +1795,7 @@ def run(ck) -> None:
         ck.hist("cases_by_kind", kind, len(cases))
         for c in cases:
             ck.hist("impl_outcome", c["impl"][0] if c["impl"][0] == "ok" else "raise")
-            if c["supported"]:
+            if c["supported"] or c.get("oracle_supported"):
                 ck.nontriv((kind, c["term_p"]))
                 # the property oracle on every supported case, independently of Coq
                 if c["impl"][0] != "ok":
@@ -1799,6 +1869,8 @@ def search(ck) -> None:
 
 def replay(rp: dict) -> int:
     logging.disable(logging.WARNING)
+    import warnings
+    warnings.simplefilter("ignore")
     if "proto_b64" not in rp:
         print("replay names a broken obligation/correspondence, no concrete input:",
               json.dumps(rp.get("broken"), indent=1)[:3000])
